@@ -28,8 +28,8 @@ Judge(k) ==
                              nwant |-> Len(want), ngot |-> Len(bad[j].calls)]]
 CheckCase == /\ c <= NCases /\ c' = c + 1 /\ UNCHANGED <<doc, targets, evs, ctx, col, colLoc, calls>>
              /\ LET j == Judge(c) IN
-                /\ (j = <<>> \/ Len(TLCGet(1)) >= MaxBad \/ TLCSet(1, TLCGet(1) \o j))
-                /\ (j = <<>> \/ TLCSet(3, TLCGet(3) + Len(j)))
+                /\ (IF j = <<>> \/ Len(TLCGet(1)) >= MaxBad THEN TRUE ELSE TLCSet(1, TLCGet(1) \o j))
+                /\ (IF j = <<>> THEN TRUE ELSE TLCSet(3, TLCGet(3) + Len(j)))
              /\ TLCSet(2, c)
 TraceSpec == TraceInit /\ [][CheckCase]_tvars
 Post == JsonSerialize("out.json", [n |-> TLCGet(2), bad |-> TLCGet(1), nbad |-> TLCGet(3), hits |-> [x \in {} |-> 0]])
